@@ -137,4 +137,38 @@ theorem f7_old_counterexample :
 example : (runSegs compileOp Bk.init [⟨[.meas .array measCmds], .pre (fun _ => 16)⟩]).1
     = [some ([declCmd ⟨0, 1⟩] ++ measCmds.map (substCmd (fun _ => 16)) ++ [retArrCmd ⟨0, 1⟩])] := by rfl
 
+/-- **compile_commit_eq_flush, any interleaving**: histories in which the host keeps building
+operations between `compile()` and `commit_subroutine()` and holds several compiled-but-
+uncommitted subroutines (committed oldest first; ordinary flushes only while nothing is
+uncommitted — `runH` is `none` otherwise).  Whenever the pre-compiled flow ends in `s'`, the
+program written with the concrete values and ordinary flushes (`directH`: every `compile`
+becomes a `flush`) ends in the same bookkeeping and has sent exactly the subroutines the
+pre-compiled flow has sent followed by those it still holds compiled.  Induction over the
+history. -/
+theorem compile_commit_eq_flush_interleaved (es : List HEv) (b : Bk) (hb : b.pending = [])
+    (s' : HSt) (h : runH false ⟨b, [], []⟩ es = some s') :
+    runH false ⟨b, [], []⟩ (directH es) = some ⟨s'.bk, [], s'.sent ++ s'.queue⟩ := by
+  have := runH_direct es ⟨b, [], []⟩ s' h
+  simpa [substBk?_of_pending_nil _ b hb] using this
+
+private def measCmds2 : List PCmd :=
+  [⟨"SET", [.txt "Q0", .int 1]⟩, ⟨"MEAS", [.txt "Q0", .txt "M0"]⟩, ⟨"STORE", [.txt "M0", .txt "@1[0]"]⟩]
+
+private def interleaved : List HEv :=
+  [.build (.meas .array measCmds), .compile (fun _ => 5), .build (.meas .array measCmds2),
+   .commit, .flush]
+
+/-- non-vacuity: an interleaved history inside the vocabulary, and what it sends -/
+example : (runH false ⟨Bk.init, [], []⟩ interleaved).map (·.sent) =
+    some [[declCmd ⟨0, 1⟩] ++ measCmds.map (substCmd (fun _ => 5)) ++ [retArrCmd ⟨0, 1⟩],
+          [declCmd ⟨1, 1⟩] ++ measCmds2 ++ [retArrCmd ⟨1, 1⟩]] := by rfl
+
+/-- the hypothesis "reset at compile time" is what makes it true: with `_reset()` moved into
+`commit_subroutine` the array queued between compile and commit is neither declared nor
+returned by the next flush -/
+theorem reset_at_commit_counterexample :
+    (runH true ⟨Bk.init, [], []⟩ interleaved).map (·.sent) =
+      some [[declCmd ⟨0, 1⟩] ++ measCmds.map (substCmd (fun _ => 5)) ++ [retArrCmd ⟨0, 1⟩],
+            measCmds2] := by rfl
+
 end NQ.C06
